@@ -461,6 +461,27 @@ def main():
                             ("set-noarg-empty-directory", [fl("100")], [ap("linear"), {"op": "delete", "ver": "100"}, setn])):
         cases.append({"seq": name, "len": len(ops), "predirty": False, "init": init, "ops": ops, "scripted": True})
 
+    # scripted: first run with --baseline on a NON-CLEAN database while one or two checkpoint files precede the baseline
+    # version (baseline = the file right after the checkpoint(s) / a later one): the baseline version itself is recorded,
+    # then status and apply under each exec-order go on from there.
+    def apb(order, b, n=0):
+        return {"op": "apply", "n": n, "order": order, "baseline": b, "allow": False, "tx": "none"}
+    for nck, cks in ((1, ["100"]), (2, ["100", "104"])):
+        for where, b in (("right-after", "110"), ("later", "120")):
+            for order in ("linear", "linear-skip", "non-linear"):
+                init = [fl(c, True) for c in cks] + [fl("110"), fl("120"), fl("130"), fl("140")]
+                ops = [apb(order, b, n=1), ap(order, n=1), fl("115"), ap(order), ap("non-linear")]
+                cases.append({"seq": "baseline-after-%d-checkpoint-%s-%s" % (nck, where, order), "len": len(ops), "predirty": True, "init": init, "ops": ops, "scripted": True})
+
+    # scripted: `migrate set <v>` forward while an older file has no revision (added out of order / before the checkpoint
+    # the history started from) -> only the pending files are recorded; and `migrate set <v>` on a partially applied v
+    def st(v):
+        return {"op": "set", "ver": v}
+    for name, init, ops in (("set-forward-with-out-of-order-file", [fl("100"), fl("120")], [ap("linear"), fl("110"), fl("130"), fl("140"), st("130"), ap("linear-skip"), ap("non-linear")]),
+                            ("set-forward-after-checkpoint-start", [fl("100"), fl("110"), fl("120", True), fl("130")], [ap("linear"), fl("140"), fl("150"), st("140"), ap("linear")]),
+                            ("set-on-partially-applied-version", [fl("100"), {"op": "add", "ver": "110", "ck": False, "inserts": 3, "fail_at": 2}, fl("120")], [ap("linear"), st("110"), ap("linear", n=1), ap("linear")])):
+        cases.append({"seq": name, "len": len(ops), "predirty": False, "init": init, "ops": ops, "scripted": True})
+
     def work(cs):
         r = Runner(ctx, cs)
         why = r.run()
